@@ -24,7 +24,7 @@ use std::{
     fmt,
     ops::{Deref, DerefMut},
 };
-use unicode_width::UnicodeWidthStr;
+use unicode_width::{UnicodeWidthChar, UnicodeWidthStr};
 
 mod cell;
 mod contacts;
@@ -533,7 +533,21 @@ impl CellBuffer {
                         acc
                     },
                 );
-                let escaped_unicode_width = escaped.width();
+                // the number of columns the escaped text occupies in the line:
+                // a double-width character is followed by a `\0` filler when the line
+                // comes from the StringBuffer, so together they take 2 columns,
+                // every other character (including control characters) takes 1 column
+                let has_filler = escaped.contains('\0');
+                let escaped_unicode_width: usize = escaped
+                    .chars()
+                    .map(|ch| {
+                        if has_filler {
+                            1
+                        } else {
+                            UnicodeWidthChar::width(ch).unwrap_or(1).max(1)
+                        }
+                    })
+                    .sum();
                 let cell = Cell::new(*start as i32, line as i32);
                 escaped_text.push((cell, escaped));
                 no_escaped_text += &input_chars[index..*start].iter().fold(
